@@ -24,6 +24,9 @@ type propDef struct {
 
 var props = map[string]*propDef{}
 
+// verifDir: where evidence, known findings and the seeded catalogue live.
+var verifDir = "/verif"
+
 func register(id string, patterns []string, run func(c *Ctx)) {
 	props[id] = &propDef{ID: id, Patterns: patterns, Run: run}
 }
@@ -41,6 +44,7 @@ func main() {
 	flag.Parse()
 
 	start := time.Now()
+	verifDir = *verif
 	if *layout != "" {
 		c, err := LoadRepo(*repo, corePkgs, true)
 		if err != nil {
